@@ -547,11 +547,34 @@ def check_key_notation(ctx):
     # text character by character turns the entry 12 into the two entries 1, 2. The writer has to mark one-entry keys (a
     # trailing separator, Python's own notation for a 1-tuple) or the reader must not split separator-free text
     per_char = [c for c in body_walk(r.node) if isinstance(c, ast.Call) and dotted(c.func) in ("map", "tuple", "list") and c.args and isinstance(c.args[-1], ast.IfExp) and any("split" in norm(x) for x in (c.args[-1].body, c.args[-1].orelse))]
-    marks_single = any(isinstance(t, ast.Compare) and "len(" in norm(t) and norm(t.comparators[0]) == "1" for t in ast.walk(w.node)) or any(isinstance(b, ast.BinOp) and isinstance(b.op, ast.Add) and isinstance(b.right, ast.Constant) and b.right.value == "," for b in ast.walk(w.node))
+    def _len_is_one_tests(fn_node, per_key_names):
+        """`len(x) == 1` tests; the mark is only sound when x is the key being written (not, say, the whole dictionary)"""
+        good = bad = 0
+        fd = Defs(fn_node)
+        for t in ast.walk(fn_node):
+            if isinstance(t, ast.Compare) and "len(" in norm(t) and norm(t.comparators[0]) == "1":
+                ln = [c for c in ast.walk(t.left) if isinstance(c, ast.Call) and dotted(c.func) == "len" and c.args]
+                names = {n.id for c in ln for n in ast.walk(c.args[0]) if isinstance(n, ast.Name)}
+                deps = set(names)
+                for nm in names:
+                    for dv in fd.defs.get(nm, []):
+                        if isinstance(dv, ast.AST):
+                            deps |= {n.id for n in ast.walk(dv) if isinstance(n, ast.Name)}
+                if deps & per_key_names:
+                    good += 1
+                else:
+                    bad += 1
+        return good, bad
+
+    g, b = _len_is_one_tests(w.node, comp_vars)
+    marks_single = g > 0 or any(isinstance(x, ast.BinOp) and isinstance(x.op, ast.Add) and isinstance(x.right, ast.Constant) and x.right.value == "," for x in ast.walk(w.node))
+    foreign_mark = b > 0 and g == 0
     for hf in [w.module.functions[c.func.id] for c in calls_helper]:
-        marks_single = marks_single or any(isinstance(t, ast.Compare) and "len(" in norm(t) and norm(t.comparators[0]) == "1" for t in ast.walk(hf.node))
+        hp = set(positional_params(hf.node))
+        g2, b2 = _len_is_one_tests(hf.node, hp | {n.id for c in ast.walk(hf.node) if isinstance(c, (ast.DictComp, ast.ListComp, ast.GeneratorExp)) for gg in c.generators for n in ast.walk(gg.target) if isinstance(n, ast.Name)})
+        marks_single = marks_single or g2 > 0
     if per_char:
-        ctx.check(marks_single, R5, f"{MOD}:key-notation-single-entry", "one-entry outcomes are written with a separator, so the reader's character-by-character branch never sees a multi-digit entry", "a one-entry outcome is written without a separator (`\",\".join` of one item) and the reader reads separator-free text character by character: the saved key of (12,) is \"12\" and loads back as (1, 2), so saving then loading a distribution on one subsystem with outcomes of 10 or more does not return the same keys", r)
+        ctx.check(marks_single, R5, f"{MOD}:key-notation-single-entry", "one-entry outcomes are written with a separator, so the reader's character-by-character branch never sees a multi-digit entry", ("the separator mark for one-entry outcomes is decided by a length that is not the length of the key being written (the whole dictionary's, say): " if foreign_mark else "") + "a one-entry outcome is written without a separator (`\",\".join` of one item) and the reader reads separator-free text character by character: the saved key of (12,) is \"12\" and loads back as (1, 2), so saving then loading a distribution on one subsystem with outcomes of 10 or more does not return the same keys", r)
     ctx.check(not (writer_per_key and not reader_per_key), R5, f"{MOD}:key-notation-granularity", "writer and reader agree on how one key's notation is chosen", "the writer chooses the notation of each saved key from that key (separator depends on the outcome) but the reader decides the notation once for the whole dictionary: a saved distribution mixing single-digit and multi-digit outcomes cannot be loaded back", r)
 
 
